@@ -17,7 +17,29 @@ open VaxisModel.Spec.Expected
 open VaxisModel.Props.C01 (FitsRow Fits)
 
 /-- Hyperlink parameters as the terminal stores them: none when no hyperlink is open. -/
-def lpOf (s : Style) : String := if s.link = "" then "" else s.linkParams
+def lpOf (s : Style) : String := lpField (if s.link = "" then "" else s.linkParams)
+
+theorem lpFieldL_eq : ∀ (n : Nat) (l : List Char), l.length ≤ n → lpFieldL l = paramFieldL l := by
+  intro n
+  induction n with
+  | zero => intro l h; cases l with
+    | nil => rfl
+    | cons a r => simp at h
+  | succ n ih =>
+    intro l h
+    match l with
+    | [] => rfl
+    | [a] => rfl
+    | a :: b :: r =>
+      have hr : r.length ≤ n := by simp at h; omega
+      simp only [lpFieldL, paramFieldL, Prod.mk.injEq, ih r hr]
+
+/-- The model's `lpField` (transcribed from `render()`) is the spec's `paramField` (from the OSC 8 syntax). -/
+theorem lpField_eq (s : String) : lpField s = paramField s := by
+  unfold lpField paramField
+  rw [lpFieldL_eq _ _ (Nat.le_refl _)]
+
+@[simp] theorem lpField_empty : lpField "" = "" := by decide
 
 /-- The cell's explicit width (if any) is the width the terminal gives the grapheme, unless the
     explicit-width protocol is in use (then any width > 1 is transmitted). -/
@@ -38,10 +60,10 @@ theorem phi_ok (cw : String → Nat) (caps : Caps) (l : Cell) : VOk (phi cw caps
   split
   · rename_i h
     have : advance cw l = 0 := by rw [adv_eq]; omega
-    exact ⟨"20", shown caps l.style, (if l.style.link = "" then "" else l.style.linkParams), l.style.link, by rw [this]⟩
+    exact ⟨"20", shown caps l.style, paramField (if l.style.link = "" then "" else l.style.linkParams), l.style.link, by rw [this]⟩
   · rename_i h
     have : (cellWidth cw l).toNat = advance cw l + 1 := by rw [adv_eq]; omega
-    exact ⟨l.g, shown caps l.style, (if l.style.link = "" then "" else l.style.linkParams), l.style.link, by rw [this]⟩
+    exact ⟨l.g, shown caps l.style, paramField (if l.style.link = "" then "" else l.style.linkParams), l.style.link, by rw [this]⟩
 
 theorem eRow_map_phi (cw : String → Nat) (caps : Caps) (k : Nat) (ls : List Cell) :
     eRow k (ls.map (phi cw caps)) = expectedRow cw caps k ls := by
@@ -181,6 +203,7 @@ theorem glyph_step (cw : String → Nat) (caps : Caps) (c : Cell) (t : Term) (hs
 theorem expectedCell_eq (cw : String → Nat) (caps : Caps) (c : Cell) :
     expectedCell cw caps c = DCell.glyph (shownG cw c) (advance cw c + 1) (shown caps c.style) (lpOf c.style) c.style.link := by
   unfold expectedCell shownG lpOf
+  rw [lpField_eq]
   have hadv : advance cw c = (cellWidth cw c).toNat - 1 := adv_eq cw c
   simp only
   split
@@ -197,7 +220,7 @@ theorem penDelta_split (caps : Caps) (pen next : Style) :
     ∃ sg, (∀ k ∈ sg, ∃ ps, k = Tok.sgr ps) ∧
       penDelta caps pen next = sg ++
         (if pen.link ≠ next.link ∨ (next.link ≠ "" ∧ pen.linkParams ≠ next.linkParams) then
-           [Tok.osc8 (if next.link = "" then "" else next.linkParams) next.link] else []) := by
+           [Tok.osc8 (lpField (if next.link = "" then "" else next.linkParams)) next.link] else []) := by
   refine ⟨_, ?_, rfl⟩
   intro k hk
   simp only [List.mem_append] at hk
